@@ -199,7 +199,7 @@ impl TypeCollector {
         // One listener per distinct event name, however many places emit it
         let mut seen_events = std::collections::HashSet::new();
         // Different event names may derive the same function name (user-login / user_login)
-        let mut used_function_names: HashMap<String, usize> = HashMap::new();
+        let mut used_function_names = std::collections::HashSet::new();
 
         events
             .iter()
@@ -210,12 +210,13 @@ impl TypeCollector {
                     visitor,
                     &|rust_type: &str| type_resolver.borrow_mut().parse_type_structure(rust_type),
                 );
-                let uses = used_function_names
-                    .entry(context.ts_function_name.clone())
-                    .or_insert(0);
-                *uses += 1;
-                if *uses > 1 {
-                    context.ts_function_name = format!("{}{}", context.ts_function_name, uses);
+                // Append 2, 3, ... until the name is free: a suffixed name can itself be the
+                // natural name of another event (user-login2)
+                let base_name = context.ts_function_name.clone();
+                let mut suffix = 1;
+                while !used_function_names.insert(context.ts_function_name.clone()) {
+                    suffix += 1;
+                    context.ts_function_name = format!("{}{}", base_name, suffix);
                 }
                 context
             })
